@@ -397,8 +397,8 @@ class TimeSeries:
             basename = self.header.basename
         self.header.make_inf(outfile=f"{basename}.inf")
         out_filename = f"{basename}.dat"
-        with self.header.prep_outfile(out_filename, nbits=32) as outfile:
-            outfile.cwrite(self.data)
+        # A presto .dat file is headerless float32 (the metadata lives in the .inf)
+        self.data.astype(np.float32, copy=False).tofile(out_filename)
         return out_filename
 
     def to_tim(self, filename: str | None = None) -> str:
